@@ -664,6 +664,41 @@ def oracles(ck, case, ob, sobs, stats):
             ck.fail_input("C09:launch:pipeline_id-differs-between-runs", "pipeline_id differs between runs of one launch (no sweep node)", replay_of(case))
 
 
+def bracket_edge_oracle(ck, root, stats):
+    """The launch bracket at its edges: a launch whose run space expands to zero runs (a combinatorial block over an empty
+    list) and a launch one of whose runs is aborted by an exception that is not an Exception (SystemExit raised inside a
+    processor).  Either way: one run_space_start, one run_space_end, truthful planned / completed counts."""
+    src = {"processor": "FloatValueDataSource", "parameters": {"value": 2.0}}
+    edge = [("zero-runs", [src], {"combine": "combinatorial", "blocks": [{"mode": "combinatorial", "context": {"seed": []}}]}, 0, 0),
+            ("zero-runs-two-blocks", [src], {"combine": "combinatorial", "blocks": [{"mode": "by_position", "context": {"a": [1.0, 2.0]}},
+                                                                                    {"mode": "combinatorial", "context": {"seed": []}}]}, 0, 0),
+            ("system-exit-in-run-1", [src, {"processor": "harness.lib.components:VerifExitingOperation"}],
+             {"blocks": [{"mode": "by_position", "context": {"trip": [0, 1, 0]}}]}, 3, 1)]
+    for name, nodes, rs, planned, completed in edge:
+        for mode in ("file", "dir"):
+            d = tempfile.mkdtemp(prefix="edge_", dir=root)
+            with open(os.path.join(d, "pipeline.yaml"), "w") as f:
+                f.write(dump({"extensions": ["semantiva-examples"], "run_space": rs, "pipeline": {"nodes": nodes}}))
+            tp = os.path.join(d, "t.jsonl" if mode == "file" else "traces")
+            rc, out, err = cli(["run", "pipeline.yaml", "--trace.driver", "jsonl", "--trace.output", tp], d)
+            stats["bracket_edge_launches"] = stats.get("bracket_edge_launches", 0) + 1
+            recs = all_records(read_trace(tp))
+            starts = [r for r in recs if r.get("record_type") == "run_space_start"]
+            ends = [r for r in recs if r.get("record_type") == "run_space_end"]
+            if not starts and rc != 0 and planned == 0:
+                continue            # (a tree that refuses an empty plan before the launch begins keeps the bracket trivially)
+            summ = ends[0].get("summary", {}) if ends else {}
+            ok = len(starts) == 1 and len(ends) == 1 and summ.get("planned_runs") == planned and summ.get("completed_runs") == completed
+            if ok and planned:
+                ok = starts[0].get("run_space_planned_run_count") == planned
+            if not ok:
+                ck.fail_input("C09:bracket:edge:%s" % name.split("-in-")[0],
+                              "launch `%s` (%s trace, exit %s): %d run_space_start, %d run_space_end, end summary %s; expected one of each with "
+                              "planned=%d completed=%d" % (name, mode, rc, len(starts), len(ends), summ, planned, completed),
+                              {"kind": "bracket-edge", "yaml": dump({"extensions": ["semantiva-examples"], "run_space": rs, "pipeline": {"nodes": nodes}}),
+                               "trace": mode, "exit": rc, "stderr": err[-600:], "record_types": [r.get("record_type") for r in recs]})
+
+
 def split_and_join(records):
     runs = split_runs([r for r in records if r.get("record_type") in ("pipeline_start", "pipeline_end")])
     sers = [r for r in records if r.get("record_type") == "ser"]
@@ -1390,6 +1425,7 @@ def _run(ck, rng, thorough, facts, root):
         n_cli += len(j2.jobs)
     ck.log("CLI invocations done: %d" % n_cli)
 
+    bracket_edge_oracle(ck, root, stats)
     lits, meta = [], []
     shapes = {}
     nontrivial = set()
